@@ -286,16 +286,18 @@ theorem wake_handleMsgs (ms : List Msg) (e : Ep) (hi : WakeInv e) : WakeInv (han
     unfold handleMsgs
     split
     · exact hi
-    · exact ih _ (wake_handleMsg e m hi)
+    · exact ih _ (wake_handleMsg _ m (WakeN.frame (e := e) hi ⟨rfl, rfl, rfl, rfl, rfl, id⟩))
 
 theorem wake_recvRaw (e : Ep) (c : Bytes) (hi : WakeInv e) : WakeInv (recvRaw e c).1 := by
   unfold recvRaw
   simp only []
   have h0 : WakeInv (rxEntry e c) := WakeN.frame hi ⟨rfl, rfl, rfl, rfl, rfl, id⟩
   have h1 := wake_handleMsgs (feed e.rx c).2 _ h0
+  have h2 : WakeInv { (handleMsgs (rxEntry e c) (feed e.rx c).2).1 with rxMore := false } :=
+    WakeN.frame h1 ⟨rfl, rfl, rfl, rfl, rfl, id⟩
   split
-  · exact wake_doClose _ h1
-  · exact h1
+  · exact wake_doClose _ h2
+  · exact h2
 
 /-! one event -/
 
